@@ -463,16 +463,26 @@ def run(ctx: core.Ctx):
         problems += compare(ctx, more, drv, label="search")
     concrete = [(c, w, r) for c, w, conc, r in problems if conc]
     broken = [(c, w, r) for c, w, conc, r in problems if not conc]
-    for c, w, r in concrete[:3]:
+    seen_keys = set()
+    for c, w, r in concrete:
+        # SQLite refuses a compound SELECT of more than 500 terms; the final UNION ALL has one term per iteration (finding K12)
+        limit = isinstance(r, dict) and "too many terms in compound SELECT" in r.get("text", "")
+        key = (c["entry"], w.split(":")[0], c["engine"] if limit else None, limit)
+        if key in seen_keys or len(seen_keys) >= 5:
+            continue
+        seen_keys.add(key)
         small = shrink(c, impl_fails_property) if len(c["ids"]) <= 120 else c
         rr = run_impl_safe(small)
         what = oracle_verdict(small, rr["rows"]) if "rows" in rr else f"real code raised {rr.get('__error__')}: {rr.get('text', '')[:200]}"
+        limit = "too many terms in compound SELECT" in rr.get("text", "") if isinstance(rr, dict) else False
         ctx.violation(
-            "real output violates C05: " + (what or w).split(":")[0],
-            {"case": small, "observed": rr if len(small["ids"]) <= 40 else {"trace": rr.get("trace")}, "expected_clusters": oracle_clusters(small) if len(small["ids"]) <= 40 else None,
+            "real output violates C05: " + (what or w).split(":")[0] + (" [SQLite compound SELECT limit]" if limit else ""),
+            {"case": small if len(small["ids"]) <= 300 else {"tag": small["tag"], "n": len(small["ids"]), "order": small.get("order"), "engine": small["engine"]},
+             "observed": rr if len(small["ids"]) <= 40 else {"trace": rr.get("trace"), "error": rr.get("text", "")[-300:] if isinstance(rr, dict) else None},
+             "expected_clusters": oracle_clusters(small) if len(small["ids"]) <= 40 else None,
              "detail": what or w, "original_case_size": len(c["ids"])},
             kind="concrete",
-            match_info={"entry": small["entry"], "failure": (what or w).split(":")[0]},
+            match_info={"entry": small["entry"], "failure": (what or w).split(":")[0], "engine": small["engine"], "sqlite_compound_select_limit": limit},
         )
     if not concrete:
         if broken:
